@@ -431,6 +431,7 @@ func TestC13_PruneNeverJailsEvidenceGivers(t *testing.T) {
 		// evidence distribution: each validator none / proof A / proof B / ... such that no group reaches 2/3
 		gave := map[int]bool{}
 		group := map[int]int{}
+		resubmitted := false
 		var txs [][]byte
 		for _, v := range c.Vals {
 			g := rapid.IntRange(-1, 2).Draw(t, "evidenceGroup")
@@ -469,6 +470,23 @@ func TestC13_PruneNeverJailsEvidenceGivers(t *testing.T) {
 		for i, r := range res.TxResults {
 			if r.Code != 0 {
 				t.Fatalf("evidence tx %d rejected: %s", i, r.Log)
+			}
+		}
+		// some of the evidence-givers supply their evidence (the same proof) once more in a later block: everybody who
+		// gave evidence stays on record
+		if rapid.Bool().Draw(t, "resubmissions") {
+			var again [][]byte
+			for _, v := range c.Vals {
+				if gave[v.Index] && rapid.Bool().Draw(t, "again") {
+					proof, _ := codectypes.NewAnyWithValue(&evmtypes.SmartContractExecutionErrorProof{ErrorMessage: fmt.Sprintf("err-%d", group[v.Index])})
+					again = append(again, c.MustSign(v.Actor, &consensustypes.MsgAddEvidence{Metadata: chain.MD(v.Actor), Proof: proof, MessageID: msgID, QueueTypeName: q}))
+					resubmitted = true
+				}
+			}
+			if len(again) > 0 {
+				if _, err := c.Block(again...); err != nil {
+					t.Fatalf("evidence block: %v", err)
+				}
 			}
 		}
 		// keep validators alive and advance past the pruning age to the next multiple of 50
@@ -516,7 +534,10 @@ func TestC13_PruneNeverJailsEvidenceGivers(t *testing.T) {
 		if boundary {
 			labels = append(labels, "tenPercentBoundary")
 		}
-		evid.Case(t.Name(), fmt.Sprintf("stakes=%v groups=%v report=%s", stakes, group, report), pruned && len(gave) > 0 && len(gave) < n, labels, func() any {
+		if resubmitted {
+			labels = append(labels, "evidenceResubmitted")
+		}
+		evid.Case(t.Name(), fmt.Sprintf("stakes=%v groups=%v report=%s resubmitted=%v", stakes, group, report, resubmitted), pruned && len(gave) > 0 && len(gave) < n, labels, func() any {
 			return map[string]any{"stakes": stakes, "evidenceGroupByValidator": group, "report": report, "attestedPercent": pct, "jailed": newly}
 		})
 	})
